@@ -99,7 +99,14 @@ def run_job(job, ctx):
     suffix = job["suffix"]
     lang = langs.SUFFIX_LANG[suffix]
     r = rng("c12", job["seed"], suffix, job["i"])
-    g = gen.gen_file(r, lang, gen.Opts(max_depth=3, max_blocks=8, multibyte=r.random() < 0.3, eol=r.choice(["\n", "\n", "\r\n"])))
+    def attrs_fn(idx):
+        a = [("name", "b%d" % idx)]
+        if idx % 2:
+            a.append((["ключ", "名前", "é", "data-ü"][idx % 4], None))     # bare attribute with a non-ASCII name: still a block tag
+        return a
+
+    g = gen.gen_file(r, lang, gen.Opts(max_depth=3, max_blocks=8, multibyte=r.random() < 0.3, eol=r.choice(["\n", "\n", "\r\n"]),
+                                       attrs_fn=attrs_fn))
     name = r.choice(["", "sub/", "a/b/"]) + langs.file_name_for(suffix, "dmg")
     neighbours = {}
     for k in range(r.choice([0, 0, 1, 3, 5])):
